@@ -146,7 +146,53 @@ def run_kani(ws, crate, harnesses, jobs=16, timeout_s=900, extra_flags=(), featu
                 why = "timeout"
             results[h] = {"status": "NoResult", "reason": why, "failed": [], "n_checks": 0,
                           "undetermined": 0, "covers": 0, "covers_unsat": [], "duration_s": None, "solver_s": None}
+    # Kani 0.68 constant/static aliasing defect (lib/vlib/aliascheck.py): inspect every compiled harness
+    try:
+        attach_alias_hits(ws, results)
+    except Exception as e:  # the scan must never turn a result into an alarm
+        for r in results.values():
+            r.setdefault("alias_scan_error", str(e)[:200])
     return results, log, " ".join(cmd), wall
+
+
+def find_goto_binary(ws, harness_fq):
+    fn = harness_fq.split("::")[-1]
+    suffix = "%d%s.out" % (len(fn), fn)
+    best = None
+    for root, _dirs, files in os.walk(os.path.join(ws, "target", "kani")):
+        if not root.endswith(os.sep + "out"):
+            continue
+        for f in files:
+            if f.endswith(suffix) and not f.endswith(".symtab.out"):
+                p = os.path.join(root, f)
+                if best is None or os.path.getmtime(p) > os.path.getmtime(best):
+                    best = p
+    return best
+
+
+def attach_alias_hits(ws, results):
+    from concurrent.futures import ThreadPoolExecutor
+    from . import aliascheck
+    todo = []
+    for h, r in results.items():
+        if r.get("status") == "NoResult" and r.get("reason") in ("compile error in overlay", "harness not found"):
+            continue
+        p = find_goto_binary(ws, h)
+        if p is None:
+            r["alias_scan_error"] = "goto binary not found"
+            continue
+        todo.append((h, p))
+    def one(hp):
+        try:
+            return hp[0], aliascheck.scan(hp[1]), None
+        except Exception as e:
+            return hp[0], None, str(e)[:200]
+    with ThreadPoolExecutor(max_workers=8) as ex:
+        for h, hits, err in ex.map(one, todo):
+            if err:
+                results[h]["alias_scan_error"] = err
+            else:
+                results[h]["aliases"] = hits
 
 
 def classify(res):
